@@ -97,12 +97,13 @@ def build_finished(it, env, P, conf, large, variant):
         tlv, tspec, _ = entity_id_tlv(it, env, P, "fault_entity")
         pk["fault_location"] = tlv
         body += tspec
-    if variant == "fault location omitted":
-        # NO_ERROR: a stored fault location is neither packed nor counted
+    if variant in ("fault location omitted", "fault location omitted (unsupported checksum type)"):
+        # NO_ERROR / UNSUPPORTED_CHECKSUM_TYPE (727.0-B-5 5.2.3): a stored fault location is neither packed nor counted
+        code = 0 if variant == "fault location omitted" else 0b1011
         tlv, tspec, _ = entity_id_tlv(it, env, P, "fault_entity")
         pk["fault_location"] = tlv
-        pk["condition_code"] = CF.enumc(P, f"{CF.DEFS}.ConditionCode", 0)
-        body = [K(4, 0), K(1, 0), F("delivery_code", 1), F("file_status", 2)]
+        pk["condition_code"] = CF.enumc(P, f"{CF.DEFS}.ConditionCode", code)
+        body = [K(4, code), K(1, 0), F("delivery_code", 1), F("file_status", 2)]
     params = construct(it, env, f"{PDU}.finished.FinishedParams", pk)
     obj = construct(it, env, f"{PDU}.finished.FinishedPdu", dict(pdu_conf=conf, params=params))
     return Variant(variant, obj, body, {"condition_code": 4, "status1": 4, "status2": 4}, {}, (), 1, pk)
@@ -180,7 +181,7 @@ class Kind:
 
 DIRECTIVES = [
     Kind("EOF", f"{PDU}.eof.EofPdu", 0x04, build_eof, ("plain", "fault location")),
-    Kind("Finished", f"{PDU}.finished.FinishedPdu", 0x05, build_finished, ("plain", "two responses", "fault location", "fault location omitted")),
+    Kind("Finished", f"{PDU}.finished.FinishedPdu", 0x05, build_finished, ("plain", "two responses", "fault location", "fault location omitted", "fault location omitted (unsupported checksum type)")),
     Kind("ACK", f"{PDU}.ack.AckPdu", 0x06, build_ack, ("ack of Finished", "ack of EOF")),
     Kind("Metadata", f"{PDU}.metadata.MetadataPdu", 0x07, build_metadata, ("plain", "no file names", "two options")),
     Kind("NAK", f"{PDU}.nak.NakPdu", 0x08, build_nak, ("plain", "two segment requests")),
